@@ -8,7 +8,7 @@ ASSUME = [
     "modelled, not verified: Python dict insertion order = attribute list order; str <-> Latin-1 bytes; "
     "ProtocolTreeNode constructor normalisation (children or [], attributes or {}); Python recursion limit "
     "(trees and JIDs nested deeper than ~300 levels raise RecursionError in the implementation, not in the model)",
-    "translator harness/translators/c01_dict.py (token dictionary literals -> coq/Gen/C01Dict.v, fail-closed)",
+    "translator harness/translators/c01_dict.py (token dictionary -> coq/Gen/C01Dict.v: list literals of __init__ AND the tables / getToken / getIndex of a TokenDictionary() built in a fresh interpreter, which must agree; measured alone when the source shape is not recognised; fail-closed)",
     "the tie model<->code for encoder.py/decoder.py/layer.py is differential testing over generated trees, the boundary "
     "set derived from the model's branch constants, mutated frames and random byte strings",
     "zlib is abstract in the theorems (Section variable `inflate`); the harness uses the real zlib",
@@ -108,6 +108,7 @@ def run(ctx):
     try:
         prim, sec = c01_dict.regenerate()
         ctx.ties["translator:c01_dict"] = "ok"
+        ctx.coverage["dictionary_translator_path"] = getattr(c01_dict.read_tables, "last_path", "?")
     except Exception as e:
         ctx.ties["translator:c01_dict"] = "broken: %s" % e
         prim = sec = None
